@@ -844,4 +844,86 @@ theorem par_includes_seq (c : Cfg) (s : St) (a b : Op) (hl : s.loop = true) (hra
   rw [hk, runThread_is_step c (step c s a).1 b hl' hrb]
   simp [hb, POut.ofRun]
 
+/-! ### a part is stuck exactly in the unsafe part states -/
+
+theorem step_active_halts_eq_stuck (c : Cfg) (s : St) (op : Op) (ha : s.active = true) :
+    (step c s op).2.halts = (step c s op).2.stuck := by
+  cases op <;> simp only [step, spawn, stopBasic, ctlTransition, reapCtl, escalate, ha]
+  all_goals (repeat' split)
+  all_goals simp_all [Res.halts, Res.stuck]
+
+theorem pstep_halts_iff (c : Cfg) (s : St) (p : Part) : (pstep c s p).halts = unsafePart c s p := by
+  cases p with
+  | look op =>
+    simp only [pstep, unsafePart]
+    repeat' split
+    all_goals rfl
+  | whole op =>
+    have h := step_active_halts_eq_stuck c { s with active := true } op rfl
+    rw [step_stuck_iff] at h
+    have e : (serve c s op).2 = (step c { s with active := true } op).2 := rfl
+    simp only [pstep, unsafePart, ← h, ← e]
+    cases hh : (serve c s op).2.halts <;> simp [PStep.halts]
+  | prep h => simp only [pstep, unsafePart]; split <;> rfl
+  | exec h =>
+    simp only [pstep, unsafePart]
+    repeat' split
+    all_goals simp_all [PStep.halts]
+  | reap h =>
+    simp only [pstep, unsafePart]
+    repeat' split
+    all_goals simp_all [PStep.halts]
+
+/-! ### the flattened view the property is evaluated on -/
+
+theorem noStuck_specPairs (items : List Item) (rs : List IRes) (h : noStuckI rs = true) :
+    ∀ x ∈ specPairs items rs, x.2.stuck = false := by
+  induction items generalizing rs with
+  | nil => intro x hx; simp [specPairs] at hx
+  | cons it rest ih =>
+    intro x hx
+    cases rs with
+    | nil => cases it <;> simp [specPairs] at hx
+    | cons r rs' =>
+      simp only [noStuckI, List.all_cons, Bool.and_eq_true, Bool.not_eq_true'] at h
+      cases it with
+      | one op =>
+        cases r with
+        | one r0 =>
+          simp only [specPairs, List.mem_cons] at hx
+          rcases hx with rfl | hx
+          · simpa [IRes.stuck] using h.1
+          · exact ih rs' (by simpa [noStuckI] using h.2) x hx
+        | par ra rb => simp [specPairs] at hx
+      | par a b =>
+        cases r with
+        | one r0 =>
+          simp only [specPairs, List.mem_singleton] at hx
+          subst hx
+          simpa [IRes.stuck] using h.1
+        | par ra rb =>
+          have h1 : ra.stuck = false ∧ rb.stuck = false := by simpa [IRes.stuck] using h.1
+          simp only [specPairs, List.mem_append] at hx
+          rcases hx with hx | hx
+          · split at hx <;> simp only [List.mem_cons, List.mem_nil_iff, or_false] at hx <;>
+              rcases hx with rfl | rfl <;> simp [h1.1, h1.2]
+          · exact ih rs' (by simpa [noStuckI] using h.2) x hx
+
+/-- no stuck result in the run ⇒ the `noStuck` clause of the property holds of the flattened observation -/
+theorem noStuck_flat (items : List Item) (o : IObs) (h : noStuckI o.res = true) :
+    noStuck (o.flat items).2.res = true := by
+  simp only [IObs.flat]
+  split
+  · rename_i r0 rs he
+    rw [he] at h
+    simp only [noStuckI, List.all_cons, Bool.and_eq_true, Bool.not_eq_true'] at h
+    have := noStuck_specPairs items rs (by simpa [noStuckI] using h.2)
+    simp only [noStuck, List.all_cons, Bool.and_eq_true, Bool.not_eq_true', List.all_map, List.all_eq_true,
+      Function.comp_apply]
+    exact ⟨by simpa [IRes.stuck] using h.1, fun x hx => this x hx⟩
+  · rfl
+
+theorem emits_flat (items : List Item) (o : IObs) : (o.flat items).2.emits = o.emits := by
+  simp only [IObs.flat]; split <;> rfl
+
 end ExecTask
